@@ -373,6 +373,7 @@ EXPLAIN = {
     'C18': 'Classification predicates, pair extraction, split_formula and the dependency\'s normal-form chain proved on the datatype of constraint trees for every assignment; the rest bounded.',
     'C19': 'Frames and history independence of the ten read-only operations proved by the effect analysis; random attribute generation bounded.',
     'C20': 'Feature equality/hash/order laws proved; the sorted()/frozenset/str based equalities are bounded.',
+    'C17': 'Totality and size/ratio clauses of the list-cache metric methods, frames of all metric methods and history independence proved; the 40 metric definitions and identities are bounded.',
     'C12': 'Purity, determinism primitives, return-what-was-written and UTF-8 call sites proved on the source of the eight writers; byte-identity across processes is configuration sampling (bounded).',
     'C03': 'Every query function of models/feature_model.py under contract is proved equal to its specification function '
            '(rel_class, rels, feats, children, feature_class) for all well-formed heaps, unbounded in size.',
